@@ -325,8 +325,11 @@ def _lines(M, case):
     out["args_unchanged"] = all(np.array_equal(k, np.array(a)) and (not hasattr(a, "dtype") or a.dtype == k.dtype)
                                 for k, a in zip(keep, args))
     # a second call with the same objects in the same process must give the same answer
-    r2 = M.get_line_pts(*args)
-    out["repeatable"] = all(np.array_equal(np.asarray(x), np.asarray(y)) for x, y in zip(r, r2))
+    if case.get("noscalar"):
+        out["repeatable"] = True
+    else:
+        r2 = M.get_line_pts(*args)
+        out["repeatable"] = all(np.array_equal(np.asarray(x), np.asarray(y)) for x, y in zip(r, r2))
     if not case.get("noscalar"):
         scalar = []
         for y0, x0, y1, x1 in ls.tolist():
@@ -613,6 +616,12 @@ def check(ctx, cases, outs):
                     allp = set((a, b) for cl in o["calls"] for a, b in zip(cl["i"], cl["j"]))
                     if not allp <= on:
                         res[k] = "polygon_lines_to_mask: a pixel of a polygon side is not in the mask"
+    # callers: the pixel set must be the union of the (proved-correct) model lines — evaluated here too, so
+    # that a replay / the shrinker sees it without the correspondence stage
+    ck = [k for k, c in enumerate(cases) if c["fn"] in ("strel", "hull") and res[k] is None]
+    if ck:
+        for k, m in zip(ck, model(ctx, [cases[k] for k in ck], [outs[k] for k in ck])):
+            res[k] = compare(cases[k], outs[k], m)
     for k_lab, r in zip(line_jobs, ctx.run_model("entry_check_line", [a for _, _, a in line_jobs]) if line_jobs else []):
         k, lab, _ = k_lab
         if r != 1 and res[k] is None:
@@ -681,10 +690,20 @@ def search_cases(ctx, rnd):
 
 
 def _dec(l, lo=None):
+    """smaller variants of a coordinate list: long lines shrink geometrically (every evaluation of a
+    60000-point line costs seconds), short ones by unit steps"""
+    big = max(abs(v) for v in l) > 64
+    if big:
+        yield [v // 2 if v >= 0 else -((-v) // 2) for v in l]
     for k in range(len(l)):
         if l[k] != 0 and (lo is None or l[k] > lo):
-            m = list(l); m[k] -= 1 if l[k] > 0 else -1
-            yield m
+            if big and abs(l[k]) > 64:
+                for step in (abs(l[k]), abs(l[k]) // 4, abs(l[k]) // 32):
+                    m = list(l); m[k] -= step if l[k] > 0 else -step
+                    yield m
+            else:
+                m = list(l); m[k] -= 1 if l[k] > 0 else -1
+                yield m
 
 
 def shrink_candidates(case):
@@ -696,8 +715,6 @@ def shrink_candidates(case):
                 if case["arr"].get(key) != dflt:
                     yield dict(case, arr=dict(case["arr"], **{key: dflt}))
         l = case["l"]
-        if max(abs(v) for v in l) > 40:
-            yield dict({"fn": "draw", "l": [v // 2 for v in l]}, **extra)
         for m in _dec(l, 0 if "arr" in case else None):
             yield dict({"fn": "draw", "l": m}, **extra)
         return
@@ -724,6 +741,21 @@ def shrink_candidates(case):
         return
     ls = case["ls"]
     extra = {k: case[k] for k in ("dtype", "layout", "noscalar") if k in case}
+    if sum(max(abs(l[2] - l[0]), abs(l[3] - l[1])) + 1 for l in ls) > 20000 and len(ls) <= 8:
+        # every evaluation of such a case costs seconds: only a handful of candidates
+        for k in range(len(ls)):
+            if len(ls) > 1:
+                yield dict({"fn": "lines", "ls": ls[:k] + ls[k + 1:]}, **extra)
+        n = max(range(len(ls)), key=lambda k: max(abs(ls[k][2] - ls[k][0]), abs(ls[k][3] - ls[k][1])))
+        l = ls[n]
+        cands = []
+        if extra.get("dtype", "int") in ("int", "int64", "intp", "list") and (l[0] or l[1]):
+            cands.append([0, 0, l[2] - l[0], l[3] - l[1]])
+        cands += list(_dec(l))[:9]
+        for mm in cands:
+            m = [list(x) for x in ls]; m[n] = mm
+            yield dict({"fn": "lines", "ls": m}, **extra)
+        return
     if extra.get("layout", "C") != "C":
         yield dict({"fn": "lines", "ls": ls}, **dict(extra, layout="C"))
     if len(ls) > 3:
@@ -738,9 +770,6 @@ def shrink_candidates(case):
             yield dict({"fn": "lines", "ls": ls[:k] + ls[k + 1:]}, **extra)
     if len(ls) <= 40:
         for n, l in enumerate(ls[:3]):
-            if max(abs(v) for v in l) > 2000 and extra.get("dtype", "int") in ("int", "int64", "list"):
-                m = [list(x) for x in ls]; m[n] = [v // 2 for v in l]
-                yield dict({"fn": "lines", "ls": m}, **extra)
             for mm in _dec(l):
                 m = [list(x) for x in ls]; m[n] = mm
                 yield dict({"fn": "lines", "ls": m}, **extra)
